@@ -949,12 +949,14 @@ func Establishes(from, to *ssa.BasicBlock, p Pred) bool {
 		// that is not the constant false was true (and conversely); the walker prunes the
 		// infeasible constant edges (see feasible()).
 		n := 0
+		simple := true
 		for _, e := range ph.Edges {
 			if c, isC := e.(*ssa.Const); isC && c.Value != nil && c.Value.Kind() == constant.Bool {
 				if constant.BoolVal(c.Value) == neg {
 					continue // this incoming value cannot produce the edge taken
 				}
-				return false // constant that takes this edge unconditionally: nothing established by it
+				simple = false // constant that takes this edge unconditionally: nothing established by it
+				break
 			}
 			ev, eneg := e, neg
 			for {
@@ -965,11 +967,28 @@ func Establishes(from, to *ssa.BasicBlock, p Pred) bool {
 				break
 			}
 			if !p.holds(ev, eneg) {
-				return false
+				simple = false
+				break
 			}
 			n++
 		}
-		return n > 0
+		if simple && n > 0 {
+			return true
+		}
+	}
+	// a boolean computed by short-circuit evaluation and branched on (possibly in a later block, possibly nested — what
+	// an inlined-back predicate helper leaves: `skip := rc && batch.IsTransactional && aborted; if skip { continue }`):
+	// every incoming value that can produce the value taken satisfies p itself, implies it recursively, or arrives over
+	// an in-edge that is only taken where p holds
+	// (not for EstablishingEdges: the fact was established inside the computation of the boolean, and a rule that asks
+	// what follows the establishing edge must start there, not at the later branch on the result)
+	if ph, ok := cond.(*ssa.Phi); ok && boolPhiDepth == 0 && phiNilDepth == 0 {
+		boolPhiDepth++
+		r := boolPhiImplies(ph, p, neg, 0)
+		boolPhiDepth--
+		if r {
+			return true
+		}
 	}
 	if p.holds(cond, neg) {
 		return true
@@ -1145,6 +1164,8 @@ type Edge struct{ From, To *ssa.BasicBlock }
 // loop header) that establish p, in block order.
 func (r *Region) EstablishingEdges(p Pred) []Edge {
 	var out []Edge
+	boolPhiDepth++
+	defer func() { boolPhiDepth-- }()
 	for _, b := range r.Fi.Fn.Blocks {
 		if r.Allowed != nil && !r.Allowed[b] {
 			continue
@@ -1189,4 +1210,68 @@ func (p *Program) liftedDepth(ev Ev, depth int) Ev {
 		esc, _ := WholeFn(callee).Escape(p.liftedDepth(ev, depth-1))
 		return !esc
 	}
+}
+
+
+// boolPhiDepth guards boolPhiImplies against re-entering itself through Guarded.
+var boolPhiDepth int
+
+func boolPhiImplies(ph *ssa.Phi, p Pred, neg bool, depth int) bool {
+	if depth > 4 {
+		return false
+	}
+	n := 0
+	guardedIn := func(i int) bool {
+		pred := ph.Block().Preds[i]
+		if Establishes(pred, ph.Block(), p) {
+			return true
+		}
+		// … or over a chain of single-predecessor blocks inside the φ's own computation (below the φ block's immediate
+		// dominator): a guard further up holds there as well, but is not established by this branch
+		idom := ph.Block().Idom()
+		for b, k := pred, 0; k < 4 && idom != nil && b != idom && idom.Dominates(b) && len(b.Preds) == 1; k++ {
+			if Establishes(b.Preds[0], b, p) {
+				return true
+			}
+			b = b.Preds[0]
+		}
+		return false
+	}
+	for i, e := range ph.Edges {
+		if i >= len(ph.Block().Preds) {
+			return false
+		}
+		if c, isC := e.(*ssa.Const); isC && c.Value != nil && c.Value.Kind() == constant.Bool {
+			if constant.BoolVal(c.Value) == neg {
+				continue // cannot produce the value taken
+			}
+			if guardedIn(i) {
+				n++
+				continue
+			}
+			return false
+		}
+		ev, eneg := e, neg
+		for {
+			if u, ok := ev.(*ssa.UnOp); ok && u.Op == token.NOT {
+				ev, eneg = u.X, !eneg
+				continue
+			}
+			break
+		}
+		if p.holds(ev, eneg) {
+			n++
+			continue
+		}
+		if inner, isPhi := ev.(*ssa.Phi); isPhi && boolPhiImplies(inner, p, eneg, depth+1) {
+			n++
+			continue
+		}
+		if guardedIn(i) {
+			n++
+			continue
+		}
+		return false
+	}
+	return n > 0
 }
